@@ -510,6 +510,10 @@ def parse_rvalue(rv):
     m = re.match(r'^(.*) as (.*?) \((\w+)(?:\(.*\))?\)$', rv, re.S)
     if m and (rv.startswith('copy ') or rv.startswith('move ') or rv.startswith('const ')):
         return ('cast', m.group(3), parse_operand(m.group(1)), norm_ty(m.group(2)))
+    m = re.match(r'^(\*const|\*mut|&|&mut) (.*) from \((.*)\)$', rv, re.S)
+    if m:
+        # raw pointer / reference built from (data pointer, metadata)
+        return ('agg', [parse_operand(x) for x in split_top(m.group(3))])
     if rv.startswith('copy ') or rv.startswith('move ') or rv.startswith('const '):
         return ('use', parse_operand(rv))
     if rv.startswith('['):
